@@ -183,6 +183,13 @@ class JsonSchemaParser:
         if ref:
             return ForwardRef(self.get_def_name(ref))
 
+        if isinstance(type, (list, tuple)):
+            # a list of types: the same schema with any one of them
+            return LogicalType.any_of(*[
+                self.parse_type({**schema, 'type': t}, name=name, description=description,
+                                with_constraints=with_constraints) for t in type
+            ])
+
         if not type:
             type = self.infer_type(schema)
 
